@@ -1304,6 +1304,31 @@ def c16(ctx):
         out.append(ok(R, key, 'both tests of `closed` lead to `return false` (the poll function, input stream and closure are then released)', fn=k.name))
     else:
         out.append(bad(R, key, 'the producer sees the core closed but keeps the pipe alive (does not return false)', fn=k.name))
+    # a pipe whose output is dropped while its producer sleeps on back-pressure is only released if (a) a spent PipeWaker no longer holds
+    # the context (one-shot: the input stream may keep the waker it has already woken), or (b) the close notifier registered by the
+    # previous poll is still in place on the throttled return, so that PipeStream::drop reaches the producer through it
+    key = 'pipe|release-when-throttled'
+    pw = F.fn('<desync::PipeWaker as futures_task::arc_wake::ArcWake>::wake_by_ref')
+    one_shot = False
+    if pw:
+        takes = [(bb, t) for bb, t in calls(pw, 'core::option::Option::take') if '.context' in render(pw.expr_of_operand(t['args'][0]))]
+        polls = calls(pw, 'PipeContext::poll')
+        if takes and polls and all('take(' in render(pw.expr_of_operand(t['args'][0])) for bb, t in polls):
+            one_shot = True
+    bp_some = [bb for (bb, i, v) in u.assigns.get('backpressure_release_notify', []) if v[0] == 'agg' and v[2] == 'core::option::Option::Some']
+    nsc_none = [bb for (bb, i, v) in u.assigns.get('notify_stream_closed', []) if v[0] == 'agg' and v[2] == 'core::option::Option::None']
+    kept = bool(bp_some) and not any(b == t_ or t_ in k.reachable_blocks(b) for b in nsc_none for t_ in bp_some)
+    if not pw or not bp_some:
+        out.append(undecided(R, key, 'PipeWaker::wake_by_ref or the back-pressure registration in pipe() not found'))
+    elif one_shot and kept:
+        out.append(ok(R, key, 'a PipeWaker gives up its context when it fires, and the throttled return leaves the close notifier of the previous poll registered', fn=k.name))
+    elif one_shot:
+        out.append(ok(R, key, 'a PipeWaker gives up its context when it fires: a waker kept by the input stream after use cannot keep the pipe alive', fn=k.name))
+    elif kept:
+        out.append(ok(R, key, 'PipeWaker is not one-shot, but the throttled return leaves the close notifier registered, so PipeStream::drop still reaches the producer', fn=k.name))
+    else:
+        out.append(bad(R, key, 'a PipeWaker keeps its context after firing and the throttled return has cleared the close notifier: when the output stream is dropped while the producer '
+                       'waits for space, nothing wakes it and the input stream keeps the pipe (stream, closure) alive through the spent waker', fn=k.name))
     # on_drop runs on the disposal queue
     dr = F.fn('<desync::PipeStream as core::ops::drop::Drop>::drop')
     key = 'PipeStream::drop|on_drop-on-chute'
